@@ -848,42 +848,24 @@ impl DcpsDomainParticipant {
                         vec![]
                     };
 
-                    let is_any_name_matched = discovered_reader_data
-                        .dds_subscription_data
-                        .partition
-                        .name
-                        .iter()
-                        .any(|n| publisher.qos.partition.name.contains(n));
+                    // The default (empty) partition list is the list with only the "" partition
+                    let discovered_partition_names =
+                        partition_names(&discovered_reader_data.dds_subscription_data.partition);
+                    let local_partition_names = partition_names(&publisher.qos.partition);
 
-                    let is_any_received_regex_matched_with_partition_qos = discovered_reader_data
-                        .dds_subscription_data
-                        .partition
-                        .name
+                    let is_any_name_matched = discovered_partition_names
+                        .iter()
+                        .any(|n| local_partition_names.contains(n));
+
+                    let is_any_received_regex_matched_with_partition_qos = discovered_partition_names
                         .iter()
                         .filter_map(|n| Regex::new(&fnmatch_to_regex(n)).ok())
-                        .any(|regex| {
-                            publisher
-                                .qos
-                                .partition
-                                .name
-                                .iter()
-                                .any(|n| regex.is_match(n))
-                        });
+                        .any(|regex| local_partition_names.iter().any(|n| regex.is_match(n)));
 
-                    let is_any_local_regex_matched_with_received_partition_qos = publisher
-                        .qos
-                        .partition
-                        .name
+                    let is_any_local_regex_matched_with_received_partition_qos = local_partition_names
                         .iter()
                         .filter_map(|n| Regex::new(&fnmatch_to_regex(n)).ok())
-                        .any(|regex| {
-                            discovered_reader_data
-                                .dds_subscription_data
-                                .partition
-                                .name
-                                .iter()
-                                .any(|n| regex.is_match(n))
-                        });
+                        .any(|regex| discovered_partition_names.iter().any(|n| regex.is_match(n)));
 
                     let is_partition_matched =
                         discovered_reader_data.dds_subscription_data.partition
@@ -1422,40 +1404,24 @@ impl DcpsDomainParticipant {
                         vec![]
                     };
 
-                    let is_any_name_matched = discovered_writer_data
-                        .dds_publication_data
-                        .partition
-                        .name
-                        .iter()
-                        .any(|n| subscriber_qos.partition.name.contains(n));
+                    // The default (empty) partition list is the list with only the "" partition
+                    let discovered_partition_names =
+                        partition_names(&discovered_writer_data.dds_publication_data.partition);
+                    let local_partition_names = partition_names(&subscriber_qos.partition);
 
-                    let is_any_received_regex_matched_with_partition_qos = discovered_writer_data
-                        .dds_publication_data
-                        .partition
-                        .name
+                    let is_any_name_matched = discovered_partition_names
+                        .iter()
+                        .any(|n| local_partition_names.contains(n));
+
+                    let is_any_received_regex_matched_with_partition_qos = discovered_partition_names
                         .iter()
                         .filter_map(|n| Regex::new(&fnmatch_to_regex(n)).ok())
-                        .any(|regex| {
-                            subscriber_qos
-                                .partition
-                                .name
-                                .iter()
-                                .any(|n| regex.is_match(n))
-                        });
+                        .any(|regex| local_partition_names.iter().any(|n| regex.is_match(n)));
 
-                    let is_any_local_regex_matched_with_received_partition_qos = subscriber_qos
-                        .partition
-                        .name
+                    let is_any_local_regex_matched_with_received_partition_qos = local_partition_names
                         .iter()
                         .filter_map(|n| Regex::new(&fnmatch_to_regex(n)).ok())
-                        .any(|regex| {
-                            discovered_writer_data
-                                .dds_publication_data
-                                .partition
-                                .name
-                                .iter()
-                                .any(|n| regex.is_match(n))
-                        });
+                        .any(|regex| discovered_partition_names.iter().any(|n| regex.is_match(n)));
 
                     let is_partition_matched =
                         discovered_writer_data.dds_publication_data.partition
@@ -3401,6 +3367,17 @@ fn get_discovered_writer_incompatible_qos_policy_list(
     }
 
     incompatible_qos_policy_list
+}
+
+/// The default (empty) partition list is equivalent to the list containing only the empty partition name
+fn partition_names(
+    partition: &crate::infrastructure::qos_policy::PartitionQosPolicy,
+) -> Vec<String> {
+    if partition.name.is_empty() {
+        vec![String::new()]
+    } else {
+        partition.name.clone()
+    }
 }
 
 fn fnmatch_to_regex(pattern: &str) -> String {
